@@ -28,7 +28,7 @@ def run(rep, prog, tier):
     rep.rule('C14.3', 'import grouping and attachment', floor=8)
     rep.rule('C14.4', 'copy completeness', floor=9)
     rep.rule('C14.5', 'attachment inserts; embedded signatures extracted', floor=5)
-    rep.rule('C14.6', 'copies of key material and signature material carry every attribute their serialiser reads', floor=12)
+    rep.rule('C14.6', 'copies of key material and signature material carry every attribute their serialiser reads', floor=20)
     rep.rule('C14.7', 'octet widths of exported key material are ceilings of the bit length; EC points and MPIs re-parse to what was written', floor=10)
     rep.assume('SorteDeque.insort keeps elements with equal keys (bisect insertion, no replacement)')
     rep.assume('SubPackets: `name in sp` holds exactly when sp[name] is a non-empty list (lookup by subpacket name in both areas)')
@@ -57,6 +57,12 @@ def material_copies(rep, prog):
     rep.saw(fn=g)
     roots = [(cn, 'signature material') for cn in sorted(set(sigs.values()))]
     families.check_copy_carries_serialised(rep, prog, 'C14.6', roots=roots)
+    # the packets a key export is made of (and, through them, the field objects they serialise: subpacket areas, S2K ...)
+    pk = prog.module('pgpy.packet.packets')
+    key_packets = [c for c in ('UserID', 'UserAttribute', 'SignatureV4', 'PubKeyV4', 'PrivKeyV4', 'PubSubKeyV4', 'PrivSubKeyV4') if c in pk.classes]
+    if len(key_packets) < 7:
+        raise AnalysisError('key export packet classes vanished: %s' % key_packets)
+    families.check_copy_carries_serialised(rep, prog, 'C14.6', roots=[(c, 'packet of a key export') for c in key_packets])
 
 
 def _one_packet(body, text):
